@@ -127,3 +127,18 @@ contract(CONN + '.acknowledge_received_data', props=['C04', 'C05', 'C19', 'C29',
                  when='not (stream_id in self.streams) and stream_id > watermark(self, stream_id)')],
     on_raise=QUIET + [('no-window-changed', 'cm.current_window_size == old(cm.current_window_size) and cm._bytes_processed == old(cm._bytes_processed)', ['C04'])],
     canary='len(g_out) == len(old(g_out)) + 1')
+
+
+# ---------------------------------------------------------------------------
+# Premise (1) of the induction over histories (DESIGN 2.7): the constructor establishes every invariant the
+# other contracts assume.
+contract(CONN + '.__init__', props=['C29', 'C09', 'C11', 'C19'],
+    args={'config': 'obj:h2.config.H2Configuration'},
+    ensures=[('GI', 'GI(self)'),
+             ('settings-well-formed', 'SETTINGS_OK(self.local_settings) and SETTINGS_OK(self.remote_settings)', ['C11']),
+             ('no-remote-setting-pending', 'all(len(self.remote_settings._settings[k]) == 1 for k in self.remote_settings._settings)', ['C11']),
+             ('starts-idle-with-no-streams', 'self.state_machine.state == ConnectionState.IDLE and all(k < 0 for k in self.streams) and self.highest_inbound_stream_id == 0 and self.highest_outbound_stream_id == 0', ['C09', 'C19']),
+             ('nothing-to-send', 'len(self._data_to_send) == 0 and len(g_out) == 0', ['C29']),
+             ('frame-buffer-limit-is-the-inbound-limit', 'self.incoming_buffer.max_frame_size == self.max_inbound_frame_size or self.incoming_buffer.max_frame_size == 0', ['C21']),
+             ('role-from-the-configuration', 'self.config is config', ['C29'])],
+    raises=[], canary='self.highest_inbound_stream_id == 1')
